@@ -288,7 +288,7 @@ Section Machine.
         cbn [m_frames m_dos m_targets m_ready set_frames set_dos]. rewrite C, D. exact Hct'. }
       unfold exec_builtin. cbv zeta.
       destruct (bc =? CODE_LITERAL) eqn:E0.
-      { assert (bc = CODE_LITERAL) by lia. subst bc. bsplit. unfold cell_is in H.
+      { assert (bc = CODE_LITERAL) by (clear - E0; lia). subst bc. bsplit. unfold cell_is in H.
         destruct (znth seg (ip + 1)) as [a|] eqn:Ea; [|discriminate]. destruct L1 as [A L1'].
         pose proof (builtin_arg_gres p e m1 w (ip + 1) fr seg a CODE_LITERAL A Hsg Ea Hs (or_introl eq_refl)) as G.
         unfold exec_builtin in G. cbv zeta in G. rewrite E0 in G.
@@ -362,37 +362,34 @@ Section Machine.
       assert (Hfold : forall X, good (exec_builtin p e m1 bc) -> exec_builtin p e m1 bc = X -> good X) by (intros; subst; assumption).
       destruct ((bc =? CODE_PUT) || (bc =? CODE_INC) || (bc =? CODE_GET)) eqn:E9.
       { bsplit. unfold cell_is in H. destruct (znth seg (ip + 1)) as [a|] eqn:Ea; [|discriminate].
-        eapply Hfold; [eapply Harg; [reflexivity|assumption|right; left; split; [lia|assumption]]|].
+        eapply Hfold; [eapply Harg; [reflexivity|assumption|right; left; split; [clear - E9; lia|assumption]]|].
         unfold exec_builtin. cbv zeta. rewrite E0, E1, E2, E3, E4, E5, E6, E7, E8. reflexivity. }
       destruct ((bc =? CODE_LEN_INPUT) || (bc =? CODE_POS) || (bc =? CODE_END) || (bc =? CODE_SEEK) || (bc =? CODE_SKIP)) eqn:E10.
       { bsplit. unfold cell_is in H. destruct (znth seg (ip + 1)) as [a|] eqn:Ea; [|discriminate].
-        eapply Hfold; [eapply Harg; [reflexivity|assumption|right; right; left; split; [lia|assumption]]|].
+        eapply Hfold; [eapply Harg; [reflexivity|assumption|right; right; left; split; [clear - E10; lia|assumption]]|].
         unfold exec_builtin. cbv zeta. rewrite E0, E1, E2, E3, E4, E5, E6, E7, E8. reflexivity. }
       destruct ((bc =? CODE_WRITE) || (bc =? CODE_WRITE_ADD) || (bc =? CODE_WRITE_DUP) || (bc =? CODE_LEN_OUTPUT) || (bc =? CODE_REWIND)) eqn:E11.
       { bsplit. unfold cell_is in H. destruct (znth seg (ip + 1)) as [a|] eqn:Ea; [|discriminate].
-        eapply Hfold; [eapply Harg; [reflexivity|assumption|right; right; right; split; [lia|assumption]]|].
+        eapply Hfold; [eapply Harg; [reflexivity|assumption|right; right; right; split; [clear - E11; lia|assumption]]|].
         unfold exec_builtin. cbv zeta. rewrite E0, E1, E2, E3, E4, E5, E6, E7, E8. reflexivity. }
-      assert (Hno : (bc =? CODE_PUT) = false /\ (bc =? CODE_INC) = false /\ (bc =? CODE_GET) = false /\
-                    (bc =? CODE_LEN_INPUT) = false /\ (bc =? CODE_POS) = false /\ (bc =? CODE_END) = false /\
-                    (bc =? CODE_SEEK) = false /\ (bc =? CODE_SKIP) = false /\ (bc =? CODE_WRITE) = false /\
-                    (bc =? CODE_WRITE_ADD) = false /\ (bc =? CODE_WRITE_DUP) = false /\ (bc =? CODE_LEN_OUTPUT) = false /\
-                    (bc =? CODE_REWIND) = false) by (clear - E9 E10 E11; lia).
-      destruct Hno as [N1 [N2 [N3 [N4 [N5 [N6 [N7 [N8 [N9 [N10 [N11 [N12 N13]]]]]]]]]]]].
-      rewrite N1, N2, N3, N4, N5, N6, N7, N8, N9, N10, N11, N12, N13.
-      destruct (bc =? CODE_I) eqn:E12. { bsplit. apply (index_good 0); [assumption|assumption|cbn; lia]. }
-      destruct (bc =? CODE_J) eqn:E13. { bsplit. apply (index_good 1); [assumption|assumption|cbn; lia]. }
-      destruct (bc =? CODE_K) eqn:E14. { bsplit. apply (index_good 2); [assumption|assumption|cbn; lia]. }
+      repeat match goal with
+             | H : (_ || _) = false |- _ => apply orb_false_iff in H; destruct H
+             end.
+      repeat match goal with N : (bc =? _) = false |- _ => rewrite N end.
+      destruct (bc =? CODE_I) eqn:E12. { bsplit. apply (index_good 0); [assumption|assumption|match goal with H : (_ <=? s_dd sw) = true |- _ => clear - H; cbn; lia end]. }
+      destruct (bc =? CODE_J) eqn:E13. { bsplit. apply (index_good 1); [assumption|assumption|match goal with H : (_ <=? s_dd sw) = true |- _ => clear - H; cbn; lia end]. }
+      destruct (bc =? CODE_K) eqn:E14. { bsplit. apply (index_good 2); [assumption|assumption|match goal with H : (_ <=? s_dd sw) = true |- _ => clear - H; cbn; lia end]. }
       destruct ((CODE_DUP <=? bc) && (bc <=? CODE_TRUE)) eqn:E15; [|discriminate].
-      destruct (word_of_code bc ltac:(clear - E15; lia)) as [x Hx].
+      assert (Hrange15 : CODE_DUP <= bc <= CODE_TRUE) by (clear - E15; lia). destruct (word_of_code bc Hrange15) as [x Hx].
       destruct (word_res p e m1 x) as [s' [z [Hr|Hr]]].
       - eapply Hfold; [rewrite Hx, Hr; eapply like_good; [apply like_stack; eassumption|assumption]|].
         unfold exec_builtin. cbv zeta.
-        rewrite E0, E1, E2, E3, E4, E5, E6, E7, E8, N1, N2, N3, N4, N5, N6, N7, N8, N9, N10, N11, N12, N13, E12, E13, E14. reflexivity.
+        repeat match goal with N : (bc =? _) = false |- _ => rewrite N end. reflexivity.
       - eapply Hfold.
         + rewrite Hx, Hr. cbn. split; [assumption|]. intros _.
           eapply like_inv; [|exact Hci]. repeat split; reflexivity.
         + unfold exec_builtin. cbv zeta.
-          rewrite E0, E1, E2, E3, E4, E5, E6, E7, E8, N1, N2, N3, N4, N5, N6, N7, N8, N9, N10, N11, N12, N13, E12, E13, E14. reflexivity.
+          repeat match goal with N : (bc =? _) = false |- _ => rewrite N end. reflexivity.
     Qed.
   End Ordinary.
 End Machine.
